@@ -219,11 +219,11 @@ var c27deprecated = []string{
 }
 
 var c27cfgInvalid = []string{
-	"Network:\n  ListenAdr: 0.0.0.0:%d\n",           // unknown field
-	"Traces:\n  BatchTimeout: %d\n",                  // wrong type (not a duration string)
-	"Logger:\n  Type: bogus%d\n",                    // not one of the choices
-	"NoSuchGroup:\n  Value: %d\n",                    // unknown group
-	"StressRelief:\n  ActivationLevel: %d00000\n",    // above the maximum
+	"Network:\n  ListenAdr: 0.0.0.0:%d\n",             // unknown field
+	"Traces:\n  BatchTimeout: %d\n",                   // wrong type (not a duration string)
+	"Logger:\n  Type: bogus%d\n",                      // not one of the choices
+	"NoSuchGroup:\n  Value: %d\n",                     // unknown group
+	"StressRelief:\n  ActivationLevel: %d00000\n",     // above the maximum
 	"Network:\n  HoneycombAPI: \"ftp://example%d\"\n", // url with a wrong scheme
 }
 
@@ -284,9 +284,9 @@ Samplers:
 // (second file version ks, -1 if there is none) and rules version kr.
 func c27markers(kc, ks, kr int) map[string]string {
 	m := map[string]string{
-		"GetListenAddr":           fmt.Sprintf("%q", fmt.Sprintf("0.0.0.0:%d", 10000+kc%50000)),
-		"GetDatasetPrefix":        fmt.Sprintf("%q", fmt.Sprintf("p%d", kc)),
-		"GetAdditionalAttributes": fmt.Sprintf("map[verif:%q]", fmt.Sprintf("v%d", kc)),
+		"GetListenAddr":                            fmt.Sprintf("%q", fmt.Sprintf("0.0.0.0:%d", 10000+kc%50000)),
+		"GetDatasetPrefix":                         fmt.Sprintf("%q", fmt.Sprintf("p%d", kc)),
+		"GetAdditionalAttributes":                  fmt.Sprintf("map[verif:%q]", fmt.Sprintf("v%d", kc)),
 		"GetSamplerConfigForDestName(__default__)": fmt.Sprintf("DeterministicSampler &DeterministicSamplerConfig{SampleRate:%d}", kr+1),
 	}
 	if ks >= 0 {
@@ -409,7 +409,7 @@ func TestVerif_C27(t *testing.T) {
 	run.Assume("NewConfig(opts, version) on the same files in the same step is what 'startup would accept' means; the version string is the one the instance was started with")
 	run.Assume("a changed file always differs in a configuration value (comment-only edits are not generated)")
 
-	run.Cases("history", run.N(40, 260), func(i int, rng *verifkit.Rand) { c27history(t, run, rng) })
+	run.Cases("history", run.N(40, 200), func(i int, rng *verifkit.Rand) { c27history(t, run, rng) })
 
 	// The race detector's view of overlapping reloads goes into the evidence as a counter
 	// (the verdict on races belongs to C35; here the refuting observation is the double
